@@ -2,6 +2,7 @@ import RossModel.Lemmas.Calls
 import RossModel.Lemmas.SerialEnd
 import RossModel.Lemmas.Resync
 import RossModel.Lemmas.Run
+import RossModel.Lemmas.SourceReceivers
 /-!
 # C06 — Receivers survive corrupted and foreign traffic and resynchronise
 
@@ -113,5 +114,32 @@ example :
     let big : Packet := ⟨false, 7, [1, 2, 3, 4, 5, 6, 7, 8, 9, 10]⟩
     emitsOf (usartPolls LinkSt.init ((wireOf ((usartBodies big).take 1 ++ usartBodies a ++ usartBodies b)).map .byte)) =
       [.emit (.builderErr .outOfOrder), .emit (.packet b)] := by decide +kernel
+
+/-- **Source tie (control flow).** What each of the three `try_get_packet` functions does with one decoded link frame —
+translated statement by statement from `src/interface/{can,usart,serial}.rs` on every run
+(`RossModel/Generated/Receivers.lean`: `self.packet_builder` is the state, a successful `add_frame` / `new` /
+assignment rebinds it, every early `return` is an emission) — is the model's `rxFrame`, for every receiver state and
+every decoder answer. The byte- and frame-level theorems above are therefore about the bookkeeping as the code reads now. -/
+theorem C06_src_accept_eq (st : RxSt) (r : Res FErr Frame) :
+    Src.canAccept st r = rxFrame st r ∧ Src.usartAccept st r = rxFrame st r ∧ Src.serialAccept st r = rxFrame st r :=
+  ⟨Ross.src_canAccept_eq st r, Ross.src_usartAccept_eq st r, Ross.src_serialAccept_eq st r⟩
+
+/-- C06 at frame level **about the translated receivers**: whatever any of the three was in the middle of, two complete
+packets arriving back to back end with the second delivered intact and no builder left; the first is delivered intact
+or dropped with errors; nothing else is delivered -/
+theorem C06_src_run_resync (st : RxSt) (a b : Packet) (ha : a.data.length ≤ 28672) (hb : b.data.length ≤ 28672) :
+    ∀ step ∈ [Src.canAccept, Src.usartAccept, Src.serialAccept],
+    ∃ outs, runWith step st ((specFrames a ++ specFrames b).map .ok) = (outs, none) ∧
+      (outs = [.packet a, .packet b] ∨
+       ∃ errs : List BErr, errs ≠ [] ∧ outs = errs.map .builderErr ++ [.packet b]) := by
+  intro step hstep
+  have h : ∀ st r, step st r = rxFrame st r := by
+    simp only [List.mem_cons, List.not_mem_nil, or_false] at hstep
+    rcases hstep with rfl | rfl | rfl
+    · exact Ross.src_canAccept_eq
+    · exact Ross.src_usartAccept_eq
+    · exact Ross.src_serialAccept_eq
+  rw [Ross.runWith_eq step h]
+  exact Ross.run_resync st a b ha hb
 
 end Ross.Props
